@@ -4,8 +4,15 @@ Model: Model/Conn.lean with a virtual clock (`now`, `tick`); `poll` is `time::ti
 the receive is polled first, only then is the clock compared with the deadline.
 Partial, named: that tokio's timer wheel fires at the requested instant (1 ms granularity) and
 wakes the task is trusted, and exercised by lane `timeouts` under the paused clock.
+
+Whole histories (invariants `Acct` and `Uniq`, every reachable state of every interleaving):
+`C12_timed_out_holds_no_routing_state` — once the driver has handled the scrub of a timed-out
+operation, no routing entry refers to that operation and its ID is reserved only if it has meanwhile
+been handed to ANOTHER outstanding operation (it is reusable); `C12_late_reply_is_dropped` — a
+response arriving under the ID of a timed-out operation whose scrub has been handled and whose ID
+has not been handed out again matches nothing: it is dropped and changes nothing but the read cursor.
 -/
-import Ldap3V.Lemmas.ConnSteps
+import Ldap3V.Lemmas.ConnPend
 namespace Ldap3V.Conn
 
 /-- The timeout law of one poll of a timed operation, for EVERY state:
@@ -85,6 +92,89 @@ theorem C12_late_reply_orphaned (s : St) (f : Frame) (hd : s.drv = .running) (hf
     (h1 : lookup s.searchmap f.id = none) (h2 : lookup s.resultmap f.id = none) :
     step s .drvResp = some ({ s with pos := s.pos + 1 }, .none) := by
   simp [step, hd, hf, h1, h2]
+
+/-- **whole histories**: after the scrub of a timed-out operation has been handled, the connection
+holds no routing state for it, and its ID is in the table only on behalf of another operation -/
+theorem C12_timed_out_holds_no_routing_state (N : Nat) (evs : List Ev) (hf : FreshRun2 (init N) evs) (i : Nat) (o : Op)
+    (ho : (run (init N) evs).ops[i]? = some o) (hto : o.res = some .timeout)
+    (hscrubbed : o.id ∉ (run (init N) evs).scrubQ) :
+    (∀ p ∈ (run (init N) evs).resultmap, p.2 ≠ i) ∧
+    (∀ p ∈ (run (init N) evs).searchmap, o.chan ≠ some p.2) ∧
+    (o.id ∈ (run (init N) evs).inUse → i ∉ (run (init N) evs).opQ → o.kind ≠ .unbind →
+      ∃ (j : Nat) (oj : Op), j ≠ i ∧ (run (init N) evs).ops[j]? = some oj ∧ oj.id = o.id ∧ Reg (run (init N) evs) j oj) := by
+  obtain ⟨_, _, ha, hr⟩ := reach N evs hf
+  refine ⟨?_, ?_, ?_⟩
+  · intro p hp e
+    obtain ⟨o2, ho2, hid2, _, _, hres2⟩ := ha.rmOk p hp
+    rw [e, ho] at ho2; cases ho2
+    rcases hres2 with r | ⟨_, r⟩
+    · rw [hto] at r; cases r
+    · exact hscrubbed (by rw [hid2]; exact r)
+  · intro p hp e
+    obtain ⟨ch, o2, hc, ho2, hid2, _, _, _, _, himp, _⟩ := ha.smOk p hp
+    obtain ⟨ch', hc', hidx⟩ := hr.chanOf i o p.2 ho e
+    rw [hc] at hc'; cases hc'
+    rw [hidx, ho] at ho2; cases ho2
+    exact hscrubbed (by rw [hid2]; exact himp (Or.inr (Or.inr hto)))
+  · intro hin hnq hnu
+    obtain ⟨j, oj, hoj, hid, hreg⟩ := ha.acct _ hin
+    have hji : j ≠ i := by
+      intro e
+      subst e
+      rw [ho] at hoj; cases hoj
+      rcases hreg with r | r | r | ⟨c, r1, r2⟩ | r
+      · have := (ha.fresh _ o ho (by rw [r]; simp)).2
+        rcases this with e | ⟨_, e⟩
+        · rw [hto] at e; cases e
+        · rw [r] at e; cases e
+      · exact hnq r
+      · obtain ⟨o2, ho2, hid2, _, _, hres2⟩ := ha.rmOk _ r
+        simp only at ho2
+        rw [ho] at ho2; cases ho2
+        rcases hres2 with q | ⟨_, q⟩
+        · rw [hto] at q; cases q
+        · exact hscrubbed q
+      · obtain ⟨ch, o2, hc, ho2, hid2, _, _, _, _, himp, _⟩ := ha.smOk _ r2
+        obtain ⟨ch', hc', hidx⟩ := hr.chanOf _ o c ho r1
+        simp only at hc
+        rw [hc] at hc'; cases hc'
+        rw [hidx, ho] at ho2; cases ho2
+        exact hscrubbed (himp (Or.inr (Or.inr hto)))
+      · exact hnu r.1
+    exact ⟨j, oj, hji, hoj, hid, hreg⟩
+
+/-- **whole histories**: a response under an ID that is not reserved matches nothing (routing keys
+are reserved IDs): it is dropped, and nothing but the read cursor changes -/
+theorem C12_reply_under_unreserved_id_is_dropped (N : Nat) (evs : List Ev) (hf : FreshRun2 (init N) evs) (k : Nat) (f : Frame)
+    (hfree : k ∉ (run (init N) evs).inUse)
+    (hd : (run (init N) evs).drv = .running) (hnext : (run (init N) evs).srvLog[(run (init N) evs).pos]? = some f)
+    (hid : f.id = (k : Int)) :
+    step (run (init N) evs) .drvResp = some ({ run (init N) evs with pos := (run (init N) evs).pos + 1 }, .none) := by
+  obtain ⟨_, hu, _, _⟩ := reach N evs hf
+  apply C12_late_reply_orphaned _ f hd hnext
+  · cases hl : lookup (run (init N) evs).searchmap f.id with
+    | none => rfl
+    | some c =>
+      obtain ⟨n, hmem, hn⟩ := lookup_some hl
+      have : n = k := by rw [hid] at hn; exact_mod_cast hn
+      exact absurd (this ▸ hu.mapIn.2 _ hmem) hfree
+  · cases hl : lookup (run (init N) evs).resultmap f.id with
+    | none => rfl
+    | some c =>
+      obtain ⟨n, hmem, hn⟩ := lookup_some hl
+      have : n = k := by rw [hid] at hn; exact_mod_cast hn
+      exact absurd (this ▸ hu.mapIn.1 _ hmem) hfree
+
+/-- in particular the late reply to a timed-out operation whose scrub has been handled (so that its
+ID is free again, `C12_timed_out_holds_no_routing_state`) and not yet handed out again is delivered
+to nobody -/
+theorem C12_late_reply_is_dropped (N : Nat) (evs : List Ev) (hf : FreshRun2 (init N) evs) (i : Nat) (o : Op) (f : Frame)
+    (_ho : (run (init N) evs).ops[i]? = some o) (_hto : o.res = some .timeout)
+    (hnotreused : o.id ∉ (run (init N) evs).inUse)
+    (hd : (run (init N) evs).drv = .running) (hnext : (run (init N) evs).srvLog[(run (init N) evs).pos]? = some f)
+    (hid : f.id = (o.id : Int)) :
+    step (run (init N) evs) .drvResp = some ({ run (init N) evs with pos := (run (init N) evs).pos + 1 }, .none) :=
+  C12_reply_under_unreserved_id_is_dropped N evs hf o.id f hnotreused hd hnext hid
 
 /-! ### non-vacuity (tests): reply one tick before, at, and after the deadline -/
 def tScript (replyAt : Nat) : List Ev :=
